@@ -230,6 +230,11 @@ Proof.
   autorewrite with cntdb in ND. lia.
 Qed.
 
+Lemma nodup_app_l (a b : list nat) : NoDup (a ++ b) -> NoDup a.
+Proof. intros ND. msolve. Qed.
+Lemma nodup_app_r (a b : list nat) : NoDup (a ++ b) -> NoDup b.
+Proof. intros ND. msolve. Qed.
+
 Lemma abs_assign k w w' l : forall j n z,
   has_key k = true -> has_val k = true -> NoDup (items_ids k l) -> nth_error l j = Some n ->
   (forall i, i <> nv n -> val w' i = val w i) -> val w' (nv n) = z ->
@@ -241,7 +246,7 @@ Proof.
   - inversion N. subst m. f_equal.
     + unfold abs_node, set_aval. rewrite HK, HV. cbn [fst]. f_equal; [|f_equal; exact Vn].
       f_equal. apply Vo. intro Q.
-      apply NoDup_app_remove_r in ND. unfold node_ids in ND. rewrite HK, HV in ND.
+      apply nodup_app_l in ND. unfold node_ids in ND. rewrite HK, HV in ND.
       destruct (key_first k); cbn [app] in ND; inversion ND as [|? ? NI ?]; apply NI; left; auto.
     + apply map_ext_in. intros m I. apply abs_node_keep. intros i J. apply Vo. intro Q. subst i.
       eapply nodup_app_disj; [exact ND | apply node_ids_val; auto | eapply items_ids_in; eauto].
@@ -249,14 +254,13 @@ Proof.
     + apply abs_node_keep. intros i J. apply Vo. intro Q. subst i.
       eapply nodup_app_disj; [exact ND | exact J |].
       eapply items_ids_in; [eapply nth_error_In; eauto | apply node_ids_val; auto].
-    + apply IH; auto. eapply NoDup_app_remove_l; eauto.
+    + apply IH; auto. eapply nodup_app_r; eauto.
 Qed.
 
 Lemma trans_same_widen w w' X Y B C :
   trans w w' X X B B -> (forall i, In i X -> In i Y) -> trans w w' Y Y C C.
 Proof.
   intros [W I Bq V N NB] S. constructor; auto; try msolve.
-  intros i N1 _. apply V; auto.
 Qed.
 
 Lemma dup_assign_fields k : dup_assign k = true -> has_key k = true /\ has_val k = true /\ unique k = true.
@@ -304,7 +308,7 @@ Proof.
            rewrite N'. exists c, w. split; [reflexivity|]. split; [apply trans_refl; auto|]. auto.
       * exists c, w. split; [reflexivity|]. split; [apply trans_refl; auto|]. auto.
     + rewrite Len. apply nc_fresh_ok; auto.
-  - rewrite Len. apply nc_fresh_ok; auto.
+  - rewrite Len. apply nc_fresh_ok; auto. fold k. rewrite HK. discriminate.
 Qed.
 
 (* ---- removal ---- *)
@@ -330,7 +334,172 @@ Proof.
     pose proof (cnt_items_remove (ckind c) _ _ _ x N). lia. }
   split; [|split; [reflexivity|]].
   - eapply trans_perm; [apply (trans_frame _ _ _ _ _ _ (nids (set_items c (remove_at j (citems c)) (S (cfree c)))) (nblks c) T) | | | |]; msolve.
-  - unfold nabs. cbn [set_items ckind citems]. rewrite map_remove_at.
-    f_equal. eapply nabs_keep; [exact T | exact Hi |].
-    intros i I J. admit.
-Admitted.
+  - unfold nabs. cbn [set_items ckind citems]. rewrite <- map_remove_at.
+    assert (Sub : mle (items_ids (ckind c) (remove_at j (citems c))) (items_ids (ckind c) (citems c))).
+    { intro x. pose proof (cnt_items_remove (ckind c) _ _ _ x N). lia. }
+    assert (Hrem : holds w (items_ids (ckind c) (remove_at j (citems c)))) by (eapply holds_sub; [exact Hi | exact Sub]).
+    eapply nabs_keep; [exact T | exact Hrem |].
+    intros i I J. apply in_rev in J.
+    pose proof (holds_nodup _ _ W Hi) as ND. rewrite nodup_cnt in ND. specialize (ND i).
+    pose proof (cnt_items_remove (ckind c) _ _ _ i N). apply in_cnt in I. apply in_cnt in J. lia.
+Qed.
+
+Lemma nc_remove_key_ok c kr w : wfw w -> holds w (nids c) ->
+  has_key (ckind c) || has_val (ckind c) = true -> In kr (dom (heap w)) ->
+  exists c' w', nc_remove_key c kr w = Ok (c', w') /\
+     trans w w' (nids c) (nids c') (nblks c) (nblks c') /\ ckind c' = ckind c /\
+     nabs w' c' = spec_remkey (ckind c) (nabs w c) (val w kr).
+Proof.
+  intros W H KV I. unfold nc_remove_key, spec_remkey.
+  pose proof (holds_nids_items _ _ H) as Hi.
+  run (rd_ok w kr I).
+  assert (Lsel : forall i, In i (sel_ids (ckind c) (citems c)) -> In i (dom (heap w))).
+  { intros i J. eapply holds_in; [exact Hi|]. apply sel_ids_in; auto. }
+  run (rd_list_ok w _ Lsel).
+  assert (Ek : map (val w) (sel_ids (ckind c) (citems c)) = asel (ckind c) (nabs w c)).
+  { unfold nabs. apply sel_vals. auto. }
+  rewrite Ek. destruct (find_idx (val w kr) (asel (ckind c) (nabs w c))) as [j|] eqn:F.
+  - apply nc_remove_at_ok; auto. apply find_idx_lt in F. unfold asel, nabs in F. rewrite !map_length in F. exact F.
+  - exists c, w. split; [reflexivity|]. split; [apply trans_refl; auto|]. auto.
+Qed.
+
+Lemma destroy_nodes_ok k l : forall w, wfw w -> holds w (items_ids k l) ->
+  exists w', destroy_nodes k l w = Ok (tt, w') /\ trans w w' (items_ids k l) [] [] [].
+Proof.
+  induction l as [|n r IH]; intros w W H; cbn [destroy_nodes].
+  - exists w. split; [reflexivity|]. apply trans_refl. auto.
+  - unfold items_ids in *. cbn [flat_map] in *.
+    assert (Hn : holds w (rev (node_ids k n))).
+    { eapply holds_sub; [exact H|]. msolve. }
+    destruct (destroy_list_ok _ w W Hn) as (w1 & E1 & T1). run E1.
+    assert (Hr : holds w1 (flat_map (node_ids k) r)).
+    { eapply (holds_keep _ _ _ _ _ _ _ T1). eapply holds_sub; [exact H|]. msolve. }
+    destruct (IH w1 ltac:(twf T1) Hr) as (w' & E' & T').
+    exists w'. split; [exact E'|].
+    eapply (trans_seq (flat_map (node_ids k) r) [] [] [] _ _ _ _ _ _ _ _ _ _ _ _ _ _ _ T1 T'); msolve.
+Qed.
+
+Lemma nc_clear_ok c w : wfw w -> holds w (nids c) ->
+  exists c' w', nc_clear c w = Ok (c', w') /\
+     trans w w' (nids c) (nids c') (nblks c) (nblks c') /\ ckind c' = ckind c /\ citems c' = [].
+Proof.
+  intros W H. unfold nc_clear.
+  destruct (destroy_nodes_ok _ _ w W (holds_nids_items _ _ H)) as (w' & E & T). run E.
+  eexists _, _. split; [reflexivity|]. rewrite nblks_set_items, ckind_set_items.
+  split; [|split; reflexivity].
+  unfold nids at 2. cbn [set_items csent citems ckind items_ids flat_map].
+  eapply trans_perm; [apply (trans_frame _ _ _ _ _ _ (csent c) (nblks c) T) | | | |]; unfold nids; msolve.
+Qed.
+
+Lemma nc_dtor_ok c w : wfw w -> holds w (nids c) -> holdsb w (nblks c) ->
+  exists w', nc_dtor c w = Ok (tt, w') /\ trans w w' (nids c) [] (nblks c) [].
+Proof.
+  intros W H Hb. unfold nc_dtor.
+  assert (S0 : exists w0, (match ctable c with Some t => bfree t | None => ret tt end) w = Ok (tt, w0) /\
+                          trans w w0 [] [] (tblk c) []).
+  { unfold tblk. destruct (ctable c) as [t|] eqn:Tb.
+    - assert (It : In t (blks w)).
+      { eapply holdsb_in; [exact Hb|]. unfold nblks, tblk. rewrite Tb. apply in_or_app. right. left. auto. }
+      destruct (bfree_ok w t W It) as [E T]. eauto.
+    - exists w. split; [reflexivity|]. apply trans_refl. auto. }
+  destruct S0 as (w0 & E0 & T0). run E0.
+  assert (H0 : holds w0 (nids c)) by (eapply holds_frame0; eauto).
+  destruct (destroy_nodes_ok _ _ w0 ltac:(twf T0) (holds_nids_items _ _ H0)) as (w1 & E1 & T1). run E1.
+  assert (T01 : trans w w1 (nids c) (csent c) (nblks c) (cblks c)).
+  { eapply (trans_seq (nids c) (csent c) (cblks c) (cblks c) _ _ _ _ _ _ _ _ _ _ _ _ _ _ _ T0 T1); unfold nids, nblks; msolve. }
+  assert (Hb1 : holdsb w1 (cblks c)) by (eapply trans_holdsb; eauto).
+  destruct (bfree_list_ok _ w1 ltac:(twf T1) Hb1) as (w2 & E2 & T2). run E2.
+  assert (T02 : trans w w2 (nids c) (csent c) (nblks c) []).
+  { eapply (trans_seq [] (csent c) [] [] _ _ _ _ _ _ _ _ _ _ _ _ _ _ _ T01 T2); msolve. }
+  assert (Hs : holds w2 (rev (csent c))).
+  { eapply holds_sub; [eapply trans_holds; [exact T02 | exact H]|]. msolve. }
+  destruct (destroy_list_ok _ w2 ltac:(twf T2) Hs) as (w3 & E3 & T3).
+  exists w3. split; [exact E3|].
+  eapply (trans_seq [] [] [] [] _ _ _ _ _ _ _ _ _ _ _ _ _ _ _ T02 T3); msolve.
+Qed.
+
+(* ---- inserting the items of another container ---- *)
+Lemma spec_ins_ext k l p kz vz kz' vz' :
+  (has_key k = true -> kz = kz') -> (has_val k = true -> vz = vz') ->
+  spec_ins k l p kz vz = spec_ins k l p kz' vz'.
+Proof.
+  intros HK HV. unfold spec_ins. destruct (has_key k) eqn:K.
+  - rewrite <- (HK eq_refl).
+    destruct (if unique k then find_idx kz (asel k l) else None).
+    + destruct (dup_assign k) eqn:DA; auto.
+      destruct (dup_assign_fields k DA) as (_ & V & _). rewrite (HV V). reflexivity.
+    + f_equal. apply mk_anode_ext; auto.
+  - f_equal. apply mk_anode_ext; auto. intros Q. congruence.
+Qed.
+
+Lemma abs_node_oz k w n :
+  (has_key k = true -> oz (fst (abs_node k w n)) = val w (nk n)) /\
+  (has_val k = true -> oz (snd (abs_node k w n)) = val w (nv n)).
+Proof. unfold abs_node. split; intros ->; reflexivity. Qed.
+
+Lemma nc_insert_all_ok src : forall c p w,
+  wfw w -> holds w (nids c ++ items_ids (ckind c) src) -> holdsb w (nblks c) ->
+  exists c' w', nc_insert_all c p src w = Ok (c', w') /\
+     trans w w' (nids c) (nids c') (nblks c) (nblks c') /\ ckind c' = ckind c /\
+     nabs w' c' = spec_ins_all (ckind c) (nabs w c) p (map (abs_node (ckind c) w) src).
+Proof.
+  induction src as [|n r IH]; intros c p w W H Hb; cbn [nc_insert_all map spec_ins_all].
+  - exists c, w. split; [reflexivity|]. split; [apply trans_refl; auto|]. auto.
+  - set (k := ckind c) in *.
+    pose proof (holds_app_l _ _ _ H) as Hc. pose proof (holds_app_r _ _ _ H) as Hs.
+    unfold items_ids in Hs. cbn [flat_map] in Hs. fold (items_ids k r) in Hs.
+    destruct (nc_insert_ok c p (nk n) (VRef (nv n)) w W Hc Hb) as (c1 & w1 & E1 & T1 & K1 & A1).
+    { intros Q. eapply holds_in; [exact Hs|]. apply in_or_app. left. apply node_ids_key. auto. }
+    { intros Q. cbn [vsrc_live]. eapply holds_in; [exact Hs|]. apply in_or_app. left. apply node_ids_val. auto. }
+    { intros _. eauto. }
+    run E1.
+    assert (H1 : holds w1 (nids c1 ++ items_ids (ckind c1) r)).
+    { rewrite K1. fold k. eapply holds_sub; [apply (trans_holds_frame _ _ _ _ _ _ (node_ids k n ++ items_ids k r) T1 H)|]. msolve. }
+    destruct (IH c1 (pos_next p) w1 ltac:(twf T1) H1 (trans_holdsb _ _ _ _ _ _ T1 Hb)) as (c' & w' & E' & T' & K' & A').
+    exists c', w'. split; [exact E'|]. split; [|split; [unfold k; congruence|]].
+    + eapply trans_trans; eauto.
+    + rewrite A', K1, A1. fold k. cbn [vsrc_val].
+      destruct (abs_node_oz k w n) as [OK OV].
+      rewrite (spec_ins_ext k (nabs w c) p (val w (nk n)) (val w (nv n)) (oz (fst (abs_node k w n))) (oz (snd (abs_node k w n))));
+        [|intros Q; symmetry; auto|intros Q; symmetry; auto].
+      f_equal. eapply nabs_keep; [exact T1 | eapply holds_sub; [exact Hs | msolve] |].
+      intros i I J. eapply (holds_disjoint _ _ _ _ W H); [|exact J].
+      unfold items_ids. cbn [flat_map]. apply in_or_app. right. exact I.
+Qed.
+
+Lemma nc_copy_new_ok o w : wfw w -> holds w (nids o) ->
+  exists c' w', nc_copy_new o w = Ok (c', w') /\
+     trans w w' [] (nids c') [] (nblks c') /\ ckind c' = ckind o /\
+     nabs w' c' = spec_ins_all (ckind o) [] PBack (nabs w o).
+Proof.
+  intros W H. unfold nc_copy_new.
+  destruct (nc_new_ok (ckind o) w W) as (c0 & w0 & E0 & T0 & K0 & I0 & B0). run E0.
+  assert (H0 : holds w0 (nids c0 ++ items_ids (ckind c0) (citems o))).
+  { rewrite K0. eapply holds_sub; [apply (trans_holds_frame _ _ _ _ _ _ (nids o) T0 H)|]. unfold nids. msolve. }
+  assert (Hb0 : holdsb w0 (nblks c0)) by (rewrite B0; apply holdsb_nil).
+  destruct (nc_insert_all_ok (citems o) c0 PBack w0 ltac:(twf T0) H0 Hb0) as (c' & w' & E' & T' & K' & A').
+  exists c', w'. split; [exact E'|]. split; [|split; [congruence|]].
+  - eapply trans_trans; eauto.
+  - rewrite A', K0. unfold nabs at 1. rewrite I0. cbn [map]. f_equal. unfold nabs.
+    eapply nabs_keep; [exact T0 | apply (holds_nids_items _ _ H) | tauto].
+Qed.
+
+Lemma nc_assign_ok c o w : wfw w -> holds w (nids c ++ nids o) -> holdsb w (nblks c) -> ckind o = ckind c ->
+  exists c' w', nc_assign c o w = Ok (c', w') /\
+     trans w w' (nids c) (nids c') (nblks c) (nblks c') /\ ckind c' = ckind c /\
+     nabs w' c' = spec_ins_all (ckind c) [] PBack (nabs w o).
+Proof.
+  intros W H Hb KO. unfold nc_assign.
+  pose proof (holds_app_l _ _ _ H) as Hc.
+  destruct (nc_clear_ok c w W Hc) as (c1 & w1 & E1 & T1 & K1 & I1). run E1.
+  assert (H1 : holds w1 (nids c1 ++ items_ids (ckind c1) (citems o))).
+  { rewrite K1, <- KO. eapply holds_sub; [apply (trans_holds_frame _ _ _ _ _ _ (nids o) T1 H)|]. unfold nids. msolve. }
+  destruct (nc_insert_all_ok (citems o) c1 PBack w1 ltac:(twf T1) H1 (trans_holdsb _ _ _ _ _ _ T1 Hb)) as (c' & w' & E' & T' & K' & A').
+  exists c', w'. split; [exact E'|]. split; [|split; [congruence|]].
+  - eapply trans_trans; eauto.
+  - rewrite A', K1. unfold nabs at 1. rewrite I1. cbn [map]. f_equal. unfold nabs. rewrite KO.
+    eapply nabs_keep; [exact T1 | | ].
+    + rewrite <- KO. apply holds_nids_items. eapply holds_app_r; eauto.
+    + intros i I J. eapply (holds_disjoint _ _ _ _ W H); [|exact J].
+      unfold nids. apply in_or_app. right. rewrite KO. exact I.
+Qed.
